@@ -42,6 +42,8 @@ pub fn verif_into_iter<I: VerifIntoIter>(i: I) -> (r: VerifIter<I::Item>) ensure
 pub struct IndexMap<K, V> { _k: PhantomData<(K, V)> }
 impl<K, V> IndexMap<K, V> {
     pub uninterp spec fn key_seq(&self) -> Seq<K>;
+    #[verifier::external_body] pub fn len(&self) -> (r: usize) ensures r == self.key_seq().len() { unimplemented!() }
+    #[verifier::external_body] pub fn is_empty(&self) -> (r: bool) ensures r == (self.key_seq().len() == 0) { unimplemented!() }
     #[verifier::external_body] pub fn keys(&self) -> (r: VerifIter<&K>)
         ensures r@.len() == self.key_seq().len(), forall |i: int| 0 <= i < r@.len() ==> *(#[trigger] r@[i]) == self.key_seq()[i]
     { unimplemented!() }
